@@ -194,6 +194,40 @@ theorem wrong_checksum_never_reported (t : Target) (n : Nat) (f : File) (outs : 
 example : (fetch ⟨some 5, true⟩ 3 .missing [⟨.present 5 false, true⟩, ⟨.present 5 true, true⟩]).result = .chksum := by
   decide
 
+/-- **any exit status**: for a target without checksums every non-zero value returned by `spawn_bash` — exit
+codes 1..255 and `signal <<< 8` for a command killed by a signal, whose low byte is 0 — makes the run a failure:
+what it wrote is discarded and it is never an acceptable download. -/
+theorem nonzero_status_is_failure (t : Target) (f : File) (ret : Nat) (h : ret ≠ 0) (hn : t.noChksums = true) :
+    leftOf t (.ofStatus f ret) = .missing ∧ Acceptable t (.ofStatus f ret) = false := by
+  have h0 : (ret == 0) = false := by simpa using h
+  simp [Outcome.ofStatus, leftOf, Acceptable, h0, hn]
+
+example : Acceptable ⟨none, false⟩ (.ofStatus (.present 7 true) (15 <<< 8)) = false ∧
+    (fetch ⟨none, false⟩ 2 .missing [.ofStatus (.present 7 true) (15 <<< 8), .ofStatus (.present 20 true) 0]).final
+      = .present 20 true := by decide
+
+/-- **histories on one fetcher object**: however many fetches were made before on the same object and distdir —
+of the same file name with the same or with other checksums, with the file left in place or replaced —, a fetch
+that returns a path does so only for a file that has the size and checksums of *its own* target. -/
+theorem fetchSeq_each_verified (f : File) (rs : List Request) :
+    (fetchSeq f rs).length = rs.length ∧
+    ∀ p ∈ rs.zip (fetchSeq f rs), p.2.result = .returned →
+      Verified p.1.t p.2.final = true ∧ Wrong p.1.t p.2.final = false := by
+  induction rs generalizing f with
+  | nil => simp [fetchSeq]
+  | cons r rs ih =>
+    simp only [fetchSeq, List.length_cons, List.zip_cons_cons, List.mem_cons]
+    refine ⟨by rw [(ih _).1], ?_⟩
+    rintro p (rfl | hp) h
+    · have := fetch_returns_only_verified r.t r.n _ r.outs h
+      exact ⟨this.1, this.2.1⟩
+    · exact (ih _).2 p hp h
+
+/-- the file verified for the first target is not handed out for a re-rolled one of the same name and size -/
+example : ((fetchSeq .missing [⟨none, ⟨some 5, true⟩, 2, [⟨.present 5 true, true⟩]⟩,
+      ⟨none, ⟨some 5, true⟩, 2, []⟩, ⟨some (.present 5 false), ⟨some 5, true⟩, 2, [⟨.present 5 true, true⟩]⟩]).map (·.result))
+    = [.returned, .returned, .chksum] := by decide
+
 /-- the loop as it was before the `fix:` commit (verification only *before* each run, `raise last_exc`
 after the last one) loses a correct download made by the final attempt -/
 theorem unfixed_loop_counterexample :
